@@ -528,6 +528,9 @@ struct Value {
             // return unk;
             return;
         }
+        // the 5-bit symbols do not regroup into whole bytes (BIP173: invalid padding)
+        fprintf(stderr, "failed to bech32(m)-decode string (invalid padding)\n");
+        data.clear();
     }
     void verify_sig(bool compact);
     void do_verify_sig() { verify_sig(false); }
